@@ -6,7 +6,8 @@ given order, records the values it actually received, and adds a value derived f
 
     pixel += sum_i  (8 * x_i) * 64 ** (base + i)        over the flattened slot values x_0, x_1, ...
 
-All values used by the C05 check are multiples of 1/8 in [0, 8), so every term is an integer below
+All values used by the C05 check are off + n/scale with integer |n| < 64 (off = 0, scale = 8: multiples of 1/8; "fine"
+cases: off = 0.5, scale = 2**30), x_i stands for n/8, so every term is an integer below
 64 ** (base + i + 1) and, with at most 8 flattened values per pipeline, the sum is exact in binary64 and
 decodes uniquely (base-64 digits): the pixel value identifies the values the run received.
 """
@@ -32,17 +33,19 @@ def _flat(v, out):
     return out
 
 
-def _eighths(x):
-    """Exact numerator of x in eighths (None if x is not a multiple of 1/8 or not a number)."""
+def _eighths(x, off=0.0, scale=8.0):
+    """Exact integer n with x = off + n / scale (None if there is none or x is not a number).  The default is the
+    numerator of x in eighths; "fine" cases use off = 0.5, scale = 2**30, so that a value needs 31 significant bits
+    and any detour through float32 / float16 / int changes n."""
     if isinstance(x, (bool, np.bool_)) or not isinstance(x, (int, float, np.integer, np.floating)):
         return None
-    y = float(x) * 8.0
-    if y != int(y):
+    y = (float(x) - off) * scale
+    if y != int(y) or off + int(y) / scale != float(x):
         return None
     return int(y)
 
 
-def observe(detector, slots=(), base=0, **kwargs):
+def observe(detector, slots=(), base=0, off=0.0, scale=8.0, **kwargs):
     received = []
     flat_all = []
     for s in slots:
@@ -55,7 +58,7 @@ def observe(detector, slots=(), base=0, **kwargs):
             except Exception as ex:  # noqa: BLE001
                 v = f"<{type(ex).__name__}>"
         is_vec = isinstance(v, (list, tuple, np.ndarray))
-        fl = [_eighths(x) for x in _flat(v, [])]
+        fl = [_eighths(x, off, scale) for x in _flat(v, [])]
         received.append(dict(slot=s, vec=bool(is_vec), eighths=fl, raw=repr(v)[:60]))
         flat_all += fl
     val = 0.0
